@@ -11,6 +11,7 @@
 package cachesim
 
 import (
+	"bytes"
 	"context"
 	"errors"
 	"fmt"
@@ -953,7 +954,41 @@ func (m *csim) tamperCommit() {
 	if err != nil || len(data) == 0 {
 		return
 	}
-	switch m.tp.Draw("tckind", 3) {
+	switch m.tp.Draw("tckind", 5) {
+	case 3:
+		// a well-formed commit file that records ANOTHER digest: one hex digit replaced
+		i := bytes.Index(data, []byte(`"digest":"`))
+		j := bytes.LastIndexByte(data, '"')
+		if i < 0 || j <= i+20 {
+			return
+		}
+		k := bytes.IndexByte(data[i+10:j], ':')
+		if k < 0 {
+			return
+		}
+		hexStart := i + 10 + k + 1
+		pos := hexStart + m.tp.Draw("tchex", j-hexStart)
+		const digits = "0123456789abcdef"
+		d := digits[m.tp.Draw("tcdigit", 16)]
+		if d == data[pos] {
+			d = digits[(strings.IndexByte(digits, d)+1)%16]
+		}
+		data[pos] = d
+		_ = os.WriteFile(file, data, 0o644)
+		m.taintedCommit[idx] = true
+		m.s.Fired("tamper-commit-digest")
+	case 4:
+		// the commit file of another module put in its place
+		other := m.u.Modules[m.tp.Draw("tcother", len(m.u.Modules))]
+		od, _ := other.Key.Digest()
+		ofile := filepath.Join(m.cdir, od.Type().String(), other.Key.FullName().Registry(), uuidutil.ToDashless(other.CommitID)+".json")
+		odata, err := os.ReadFile(ofile)
+		if err != nil || other == mod || od.Type() != digest.Type() {
+			return
+		}
+		_ = os.WriteFile(file, odata, 0o644)
+		m.taintedCommit[idx] = true
+		m.s.Fired("tamper-commit-swap")
 	case 0:
 		pos := m.tp.Draw("tcpos", len(data))
 		data[pos] ^= byte(1 + m.tp.Draw("tcbit", 255))
@@ -1112,7 +1147,7 @@ func Run(tp *tape.Tape, env *engine.Env) *engine.Outcome {
 	verifhook.SetHandler(hooks)
 	defer verifhook.SetHandler(nil)
 	m := &csim{tp: tp, s: s, env: env, hooks: hooks, tainted: map[int]bool{}, counters: map[string]int{}, crashStates: map[string]struct{}{}}
-	u, err := modgen.New(tp, modgen.Options{MaxModules: 3, MaxFiles: 4, AllowB4: true, Extras: true})
+	u, err := modgen.New(tp, modgen.Options{MaxModules: 4, MaxFiles: 4, AllowB4: true, Extras: true})
 	if err != nil {
 		panic(err)
 	}
